@@ -619,11 +619,21 @@ class Router(Monitor):
         acc.cls(self.which, len(hops), "n" if entry[0] == "n" else "t", st.res["r"], "m" + mrel,
                 "rcp_" + ("self" if rcp == actor else ("contract" if special_rcp else "other")),
                 sem.get("bad_mode", "chain"), "stale%s" % sem.get("stale", "-"),
-                "cycle" if (hops and final == hops[0][0]) else "open")
+                "cycle" if (hops and final == hops[0][0]) else ("revisit" if (hops and final in [a for _, a in hops[:-1]]) else "open"))
+        if hops and final in [a for _, a in hops[:-1]] and st.ok:
+            acc.count("routes_ok_revisiting_final_asset")
         if not st.ok:
             acc.count("routes_failed")
             if not pre.same_as(post):
                 acc.violation("failed route changed state", case_of(w, st))
+            elif self.which == "C13":
+                why = self.must_deliver(st, hops, pairs, actor, rcp, amount, entry, m, quote, special_rcp)
+                if why is True:
+                    acc.violation("accepted route %s by %s quoted %s by the router reverted: %s"
+                                  % ([(o[1], a[1]) for o, a in hops], actor, quote, err_text(st.res)[:160]),
+                                  case_of(w, st, quote=str(quote)))
+                else:
+                    acc.count("revert_explained_" + str(why))
             if self.which == "C11" and m is not None and quote is not None and m > quote:
                 acc.count("reverted_because_below_minimum")
             return
@@ -684,6 +694,47 @@ class Router(Monitor):
             acc.sample({"hops": [[o[1], a[1]] for o, a in hops], "input": str(amount), "minimum_receive": None if m is None else str(m),
                         "router_quote": None if quote is None else str(quote), "recipient": rcp,
                         "recipient_gain": str(d_final)})
+
+    def must_deliver(self, st, hops, pairs, actor, rcp, amount, entry, m, quote, special_rcp):
+        """True if nothing the router's contract allows to fail can explain this revert (then the route, which the router
+        itself quotes, had to be delivered); otherwise a short reason. Evaluated in the unchanged post-failure state."""
+        w = self.w
+        if st.op["kind"] != "route" or not hops:
+            return "badshape"
+        if not all(pairs) or len(set(p.addr for p in pairs)) != len(pairs):
+            return "pairs"
+        if self.dangling(hops) != 1 or entry != hops[0][0]:
+            return "shape"
+        if quote is None:
+            return "noquote"
+        if special_rcp or rcp in w.t_contracts:
+            return "recipient"
+        if any(st.pre.get(w.router, a[1]) != 0 for h in hops for a in h):
+            return "router_dirty"
+        if amount <= 0 or st.pre.get(actor, entry[1]) < amount:
+            return "funds"
+        if m is not None and m > quote:
+            return "minimum"
+        cur = amount
+        for k, ((o, a), p) in enumerate(zip(hops, pairs)):
+            r = w.q(*w.q_sim(p, o, cur))
+            if r["r"] != "ok":
+                return "hop_sim_fails"
+            ret, spread = int(r["v"]["return_amount"]), int(r["v"]["spread_amount"])
+            i = p.idx(o)
+            do, dr = p.decimals[i], p.decimals[1 - i]
+            if abs(do - dr) > 19:
+                return "decimals"
+            if cur * 10 ** max(dr - do, 0) > M128 or max(ret, spread) * 10 ** max(do - dr, 0) > M128:
+                return "normalisation_overflow"
+            if ret == 0 and k < len(hops) - 1:
+                return "zero_intermediate"
+            cur = ret
+        if cur != quote:
+            return "fold_differs"
+        if st.pre.get(rcp, hops[-1][1][1]) + cur > M128:
+            return "balance_overflow"
+        return True
 
     @staticmethod
     def dangling(hops):
